@@ -85,11 +85,22 @@ func (c *tcase) word() string {
 	return fmt.Sprintf("%dx%d", c.Pr, c.Pc) + "." + strings.Join(s, ".")
 }
 
+// tab maps a value pattern of the driver to the tables printed by TLC: pattern "s" holds
+// the values of pattern "z", but sparse owners STORE the zero elements explicitly (set to
+// zero, cleared with Reset(), merely touched through At()): a storage detail the contract
+// does not see, so the expected tables are those of "z"
+func tab(pat string) string {
+	if pat == "s" {
+		return "z"
+	}
+	return pat
+}
+
 // value of a view cell under the pattern (printed by TLC)
-func (c *tcase) val(pat string, i, j int) float64 { return float64(c.Val[pat][i][j]) }
+func (c *tcase) val(pat string, i, j int) float64 { return float64(c.Val[tab(pat)][i][j]) }
 
 // value held by owner cell k under the pattern
-func (c *tcase) pval(pat string, k int) float64 { return float64(c.Par[pat][k]) }
+func (c *tcase) pval(pat string, k int) float64 { return float64(c.Par[tab(pat)][k]) }
 
 /* ------------------------------------------------------- instantiations */
 
@@ -134,13 +145,46 @@ func newVec(storage string, t ScalarType, n int) Vector {
 	return NullSparseVector(t, n)
 }
 
-// owner matrix holding the values printed by TLC (zero cells are not stored in sparse owners)
+// storeZeros makes the zero elements listed in cells (row-major numbers of an r x c owner)
+// explicitly stored entries of a sparse matrix, in three ways by cell number: set to a value
+// and cleared with Reset() of a 1x1 slice, set to a value and then to zero, touched through
+// the non-const At().  The order matters: sparse iterators delete the zero entries they pass.
+func storeZeros(m Matrix, cells []int, c int) {
+	for _, k := range cells {
+		if k%3 == 2 {
+			m.At(k/c, k%c).SetFloat64(5)
+		}
+	}
+	for _, k := range cells {
+		if k%3 == 2 {
+			m.Slice(k/c, k/c+1, k%c, k%c+1).Reset()
+		}
+	}
+	for _, k := range cells {
+		switch k % 3 {
+		case 0:
+			m.At(k/c, k%c).SetFloat64(5)
+			m.At(k/c, k%c).SetFloat64(0)
+		case 1:
+			m.At(k/c, k%c)
+		}
+	}
+}
+
+// owner matrix holding the values printed by TLC (zero cells are not stored in sparse owners
+// except under pattern "s")
 func (in inst) parent(c *tcase) Matrix {
 	m := newMat(in.Storage, in.T, c.Pr, c.Pc)
-	for k, v := range c.Par[in.Pat] {
+	zeros := []int{}
+	for k, v := range c.Par[tab(in.Pat)] {
 		if v != 0 {
 			m.At(k/c.Pc, k%c.Pc).SetFloat64(float64(v))
+		} else {
+			zeros = append(zeros, k)
 		}
+	}
+	if in.Pat == "s" {
+		storeZeros(m, zeros, c.Pc)
 	}
 	return m
 }
@@ -166,7 +210,19 @@ func (in inst) copyOf(c *tcase) Matrix {
 			vals[i][j] = c.val(in.Pat, i, j)
 		}
 	}
-	return ownerOf(in.Storage, in.T, vals, c.Vr, c.Vc)
+	m := ownerOf(in.Storage, in.T, vals, c.Vr, c.Vc)
+	if in.Pat == "s" {
+		zeros := []int{}
+		for i := range vals {
+			for j := range vals[i] {
+				if vals[i][j] == 0 {
+					zeros = append(zeros, i*c.Vc+j)
+				}
+			}
+		}
+		storeZeros(m, zeros, c.Vc)
+	}
+	return m
 }
 
 // the view, by the real calls
@@ -318,7 +374,10 @@ func replay(args []string) {
 						if onlyStorage != "" && onlyStorage != storage {
 							continue
 						}
-						for _, pat := range []string{"f", "z"} {
+						for _, pat := range []string{"f", "z", "s"} {
+							if pat == "s" && storage != "sparse" {
+								continue // stored zeros exist in sparse storage only
+							}
 							if onlyPat != "" && onlyPat != pat {
 								continue
 							}
